@@ -379,6 +379,13 @@ def odd_cases():
     case('StorySend', 'empty storyBody', B.story_send('C', []))
     case('StorySend', 'a storyBody element inside the storyBody', B.story_send('C', [E('storyBody', B.p('inner'), B.item('deep')), B.p('outer'), B.item('S1')]))
     case('StorySend', 'storyBody children named like the wrapper', B.story_send('B', [B.p('a'), E('storyBody'), E('storyBody', text='t'), B.item('S2')]))
+    def _body_first(m_):
+        b_ = TJ.find(m_, 'roStorySend')
+        j_ = next(k_ for k_, c_ in enumerate(b_[4]) if c_[0] == 'storyBody')
+        b_[4].insert(0, b_[4].pop(j_))
+        return m_
+    case('StorySend', 'storyBody is the first child', _body_first(B.story_send('C', [B.p('first'), B.item('S1'), B.p('last')])))
+    case('StorySend', 'storyBody is the first child, metadata after it', _body_first(B.story_send('B', [B.item('S1')], post=[B.timing_md(duration='4')])))
     case('StorySend', 'body with nested storyItem', B.story_send('C', [E('p', E('storyItem', E('itemID', text='deep')), text='para'), B.item('S1')]))
     case('StorySend', 'storyID after the body', B.story_send(ABSENT, [B.item('S1')], slug=False, post=[E('storyID', text='D')]))
     case('StorySend', 'attributes and tail on the message element', (lambda d: (d[4][-1].__setitem__(1, [['x', 'y']]), d[4][-1].__setitem__(3, ' tail '), d)[2])(B.story_send('A', [B.p('x')])))
@@ -708,6 +715,16 @@ def odd_cases():
                 ('EAItemSwap', 'ea swap', B.ea('SWAP', {'storyID': 'B'}, [B.ids('itemID', ['I1', other])])),
                 ('StorySend', 'send keeps the others', B.story_send('B', [B.p('sent'), B.item(other)]))]:
             case(cls, f'item {other} lives in another story only: ' + lbl, msg, elsewhere)
+    # an UNKNOWN reference that means something to str.format / %-formatting, after a reference that resolves: reported
+    # (or refused) like any other unknown reference
+    for odd_ in ('{0}', '{guid}', '{3F2504E0-4F89-11D3}', '}{', '%s', '%(x)s', '100%', '%d'):
+        for cls, lbl, msg in [
+                ('StoryDelete', 'story delete', B.story_delete(['A', odd_, 'C'])), ('EAStoryDelete', 'ea story delete', B.ea('DELETE', ABSENT, [B.ids('storyID', ['B', odd_])])),
+                ('ItemDelete', 'item delete', B.item_delete('B', ['I1', odd_])), ('EAItemDelete', 'ea item delete', B.ea('DELETE', {'storyID': 'B'}, [B.ids('itemID', ['I2', odd_, 'I1'])])),
+                ('StoryMove', 'story move', B.story_move([odd_, 'A'])), ('EAStoryMove', 'ea story move', B.ea('MOVE', {'storyID': 'A'}, [B.ids('storyID', ['C', odd_])])),
+                ('ItemMoveMultiple', 'item move', B.item_move_multiple('B', ['I2', odd_, 'I1'])), ('EAItemSwap', 'ea item swap', B.ea('SWAP', {'storyID': 'B'}, [B.ids('itemID', ['I1', odd_])])),
+                ('StorySend', 'send', B.story_send(odd_, [B.p('x')])), ('StoryReplace', 'replace', B.story_replace(odd_, [X])), ('StoryInsert', 'insert', B.story_insert(odd_, [X]))]:
+            case(cls, f'unknown reference {odd_!r} after a resolving one: ' + lbl, msg)
     # blank references against elements that have NO ID tag at all (a blank reference names nothing, them included)
     for cls, lbl, msg in [
             ('ItemDelete', 'blank ref', B.item_delete('B', [BLANK])), ('ItemDelete', 'blank and known', B.item_delete('B', [BLANK, 'I1', BLANK])),
